@@ -551,7 +551,7 @@ pub fn property() -> Property {
     subchecks.extend(crate::progs::subchecks());
     Property {
         id: "C12",
-        rule: "run-time half: a case = a history of 2..25 steps over owned anonymous, owned file-backed (with and without the hugetlbfs hint, zero and non-zero file offsets) and externally provided raw regions: create, build a map from handles, insert_region, remove_region (handle kept or dropped), clone a map, move a map into a GuestMemoryAtomic, take guards / owned snapshots / clone handles, replace, and drop any owner in any order; oracle = interposed mmap/munmap log against an owner-count model after every step (a region is unmapped exactly when its last owner disappears, once, with exactly its address and size; raw mappings never), tag bytes read through every live owner, /proc/self/maps, and a final drop of everything in a generated order with a leak check. Compile-time half: every program of a grammar (parent x accessor x escape pattern) with its control twin is compiled against the current crate: the control must compile, the escaping variant must be rejected with a borrow-check error. non-trivial = region with several owners, last owner not the creator, raw region, replace, hugetlbfs hint; every program pair; distinct = decoded history / (parent, accessor, pattern)",
+        rule: "run-time half: a case = a history of 2..25 steps over owned anonymous, owned file-backed (with and without the hugetlbfs hint, zero and non-zero file offsets) and externally provided raw regions: create, build a map from handles, insert_region, remove_region (handle kept or dropped), clone a map, move a map into a GuestMemoryAtomic, take guards / owned snapshots / clone handles, replace, and drop any owner in any order; oracle = interposed mmap/munmap log against an owner-count model after every step (a region is unmapped exactly when its last owner disappears, once, with exactly its address and size; raw mappings never), tag bytes read through every live owner (first/last byte, an atomic u32 load) inside the observed window, /proc/self/maps; xen build: also foreign, advance-mapped and on-demand grant regions over emulated devices (temporary windows of an access must be released within the step, memory mapped at creation must survive every access, the device must see every window released), and a final drop of everything in a generated order with a leak check. Compile-time half: every program of a grammar (parent x accessor x escape pattern) with its control twin is compiled against the current crate: the control must compile, the escaping variant must be rejected with a borrow-check error. non-trivial = region with several owners, last owner not the creator, raw region, replace, hugetlbfs hint; every program pair; distinct = decoded history / (parent, accessor, pattern)",
         assumptions: &["pointer guards hand out raw pointers and are exempt (documented)", "'for all client programs' is sampled by a grammar of escape patterns"],
         subchecks,
     }
